@@ -8,6 +8,7 @@ CONSTRAINT Bound
 VIEW View
 INVARIANT TypeOK
 INVARIANT BOLOnceFirst
+INVARIANT StartSampledAfterBOL
 INVARIANT ScheduleIsNestedLoop
 INVARIANT EOLOnceLast
 INVARIANT HaltStopsLoopAndRunsEOL
